@@ -452,6 +452,13 @@ def run_simul(d, vals, argvals):
     return lines
 
 
+def simul_usage_rule(d, ex) -> bool:
+    """The documented refusal of simultaneity constraints on conditionally called methods (a caller reaches the
+    simultaneous method through an `m.If` / `enable_call` hop): a usage rule of the library, not a violation."""
+    cond_hop = any(h["kind"] != "plain" for c in d["callers"] for h in c.get("hops", []))
+    return cond_hop and "conditionally called" in str(ex)
+
+
 def make_simul_case(args):
     seed, cap = args
     rng = random.Random(seed)
@@ -462,8 +469,7 @@ def make_simul_case(args):
         return {"design": d, "raised": False, "exc": "", "cycles": run_simul(d, vals, argvals), "seed": seed}
     except Exception as ex:  # noqa: BLE001
         import traceback
-        cond_hop = any(h["kind"] != "plain" for c in d["callers"] for h in c.get("hops", []))
         return {"design": d, "raised": True, "exc": f"{type(ex).__name__}: {str(ex)[:300]}", "cycles": [], "seed": seed,
                 "tb": traceback.format_exc()[-1500:],
                 # the documented refusal of simultaneity constraints on conditionally called methods
-                "usage_rule": cond_hop and "conditionally called" in str(ex)}
+                "usage_rule": simul_usage_rule(d, ex)}
